@@ -54,7 +54,7 @@ def _on_alarm(signum, frame):
 @contextlib.contextmanager
 def cpu_deadline(seconds=3.0):
     old = signal.signal(signal.SIGVTALRM, _on_alarm)
-    signal.setitimer(signal.ITIMER_VIRTUAL, seconds)
+    prev = signal.setitimer(signal.ITIMER_VIRTUAL, seconds)
     try:
         yield
     except Hang:
@@ -63,6 +63,8 @@ def cpu_deadline(seconds=3.0):
     finally:
         signal.setitimer(signal.ITIMER_VIRTUAL, 0)
         signal.signal(signal.SIGVTALRM, old)
+        if prev[0] > 0 or prev[1] > 0:          # re-arm the harness's global tick (engine/watch.py)
+            signal.setitimer(signal.ITIMER_VIRTUAL, prev[1] or prev[0], prev[1])
 
 # ---- alphabets (code points; widths are NEVER taken from here - TLC derives them from the table) --
 # several concrete characters per class, chosen at range boundaries of the pinned table
